@@ -172,7 +172,7 @@ Print Assumptions C07_idempotent_no_second.
         the first count file, and finds neither report nor marker: it writes
         local.W.json from that one file. ---- *)
 Definition rf_W : bytes := s2b "2024-01-07"%string.
-Definition rf_cfg : ucfg := mkCfg (1705000000%Z, 0%Z) true None (s2b "/t/local/"%string).
+Definition rf_cfg : ucfg := mkCfg (1705000000%Z, 0%Z) true None (s2b "/t/local/"%string) 0%Z.
 Definition rf_cf1 : cfile := mkCF 1704153600%Z 1704585600%Z 0%N [(0%N, 1%Z)].
 Definition rf_cf2 : cfile := mkCF 1704240000%Z 1704585600%Z 1%N [(0%N, 2%Z)].
 Definition rf_a : bytes := s2b "a.v1.count"%string.
@@ -241,7 +241,7 @@ Proof. exact local_whole_week. Qed.
 Print Assumptions C07_concurrent_whole_week_mode_local.
 
 (* two uploaders in mode local racing through createReport: one report, both files *)
-Definition ml_cfg : ucfg := mkCfg (1705000000%Z, 0%Z) false None (s2b "/t/local/"%string).
+Definition ml_cfg : ucfg := mkCfg (1705000000%Z, 0%Z) false None (s2b "/t/local/"%string) 0%Z.
 Example C07_ex_mode_local_race :
   let st := run [rf_S 0; rf_S 1; rf_S 0; rf_S 1; rf_S 0; rf_S 1; rf_S 0; rf_S 1; (0, APick rf_W); (1, APick rf_W);
                  rf_S 0; rf_S 1; rf_S 0; rf_S 1; rf_S 0; rf_S 1; rf_S 1; rf_S 0; rf_S 0; rf_S 1; rf_S 1; rf_S 0;
@@ -300,7 +300,7 @@ Proof. vm_compute. split; reflexivity. Qed.
 (* fix db874db: the week's date in the directory PATH no longer makes
    notNeeded true: with an unrelated ready file present the week is reported
    (before the fix its count file was deleted without a report) *)
-Definition dp_cfg : ucfg := mkCfg (1705000000%Z, 0%Z) true None (s2b "/backup-2024-01-07/local/"%string).
+Definition dp_cfg : ucfg := mkCfg (1705000000%Z, 0%Z) true None (s2b "/backup-2024-01-07/local/"%string) 0%Z.
 Definition dp_fs : FS :=
   mkFS [(rf_a, (0, CCount (Some rf_cf1) 1%N)); (s2b "2023-12-31.json"%string, (1, CRaw 9%N))] (Some []) 2.
 Example C07_ex_dir_path_with_date_harmless :
